@@ -41,8 +41,8 @@ def main():
             for it in r["items"]:
                 subs = it["items"] if it["k"] == "mod" else [it]
                 for s in subs:
-                    if s["k"] == "trait" and s["name"] == "T" and trait is None:
-                        trait = s
+                    if s["k"] == "trait" and s["name"] == "T":
+                        trait = s           # a nested invocation re-emits the trait: the last emission is the trait rustc sees
                     if s["k"] == "impl" and not s["inherent"]:
                         impls.append(s)
         if trait is not None:
